@@ -57,7 +57,7 @@ manifest = {
          "kind_free_text": "Lean 4 library (models, Bool specs, lemmas, property theorems) + compiled line-protocol driver psdriver; Python harness under harness/ runs the real code in-process and diffs"},
     ],
     "checks": checks,
-    "notes": "Two genuine defects of the pinned tree were repaired with fix: commits in /repo (see known_findings.json and DESIGN.md §1.2). Exit 2 of a check = infrastructure failure, never a verdict.",
+    "notes": "Three genuine defects of the pinned tree were repaired with fix: commits in /repo (ba730e2, 58bded6, f90634d; see known_findings.json and DESIGN.md §11.3). Exit 2 of a check = infrastructure failure, never a verdict. theorems.json is the registry of audited theorems; DESIGN.md §11 is the as-built record.",
     "not_applicable": na,
 }
 with open(os.path.join(VERIF, "MANIFEST.json"), "w") as fh:
